@@ -216,6 +216,10 @@ def render_conn(conn, transport):
 
 # RFC 7252 5.10 / 7959 / 7641 / 7967 / 8768 option formats; 13 is registered as uint by aiocoap
 # (draft-ietf-core-uri-path-abbrev), so a value with leading zeros is the same number.
+# These are the options of REQUESTS AND RESPONSES.  RFC 8323 5.2: "Option Numbers for signaling
+# messages are specific to the message code", and an elective option that is not understood is
+# ignored: the table below says nothing about a frame with a 7.xx code, and the oracle does not
+# apply it to one (it used to: a mistake of the verification, found by audit-E).
 O_STRING = {3, 8, 11, 15, 20, 35, 39}
 O_UINT = {6, 7, 12, 13, 14, 16, 17, 23, 27, 28, 60, 258}
 
@@ -278,8 +282,10 @@ def o_header(buf, pos):
     return 2 + extlen, tkl, base + int.from_bytes(buf[pos + 1:pos + 1 + extlen], "big")
 
 
-def o_parse_body(body):
-    """RFC 7252 3.1 option list and payload; raises OUnparsable."""
+def o_parse_body(body, signalling=False):
+    """RFC 7252 3.1 option list and payload; raises OUnparsable.  `signalling`: the body of a
+    frame with a 7.xx code, whose option values are not judged by the formats of the
+    request/response options that happen to have the same numbers (RFC 8323 5.2)."""
     opts = []
     num = 0
     i = 0
@@ -310,7 +316,7 @@ def o_parse_body(body):
             raise OUnparsable("value truncated")
         val = body[i:i + vals[1]]
         i += vals[1]
-        if num in O_STRING:
+        if num in O_STRING and not signalling:
             try:
                 val.decode("utf-8")
             except UnicodeDecodeError:
@@ -336,7 +342,7 @@ def o_single_frame(blob):
     code = blob[off - 1]
     token = blob[off:off + tkl]
     try:
-        opts, payload = o_parse_body(blob[off + tkl:])
+        opts, payload = o_parse_body(blob[off + tkl:], signalling=code >= 224)
     except OUnparsable:
         return None
     if o_frame(code, token, o_body(opts, payload)) != blob:
@@ -345,6 +351,26 @@ def o_single_frame(blob):
 
 
 def oracle_session(maxsize, stream, events, is_network_error):
+    """`_oracle_session` + attribution of a session-ending Abort that stands right behind frames
+    which ask for no reaction at all (an empty message ahead of the peer's CSM; a CSM or Pong
+    without critical options).  When the stream has nothing (complete) behind them, the Abort is
+    theirs: keys tcp-empty-not-ignored / tcp-signalling-refused.  When a later frame is the one
+    the oracle stumbles over (it expected a dispatch or a Pong and found the Abort), which of the
+    frames made the endpoint abort cannot be read from the events: the later frame's verdict and
+    key stay, and the verdict says where the Abort stands."""
+    notes = {}
+    verdict, key = _oracle_session(maxsize, stream, events, is_network_error, notes)
+    if not verdict:
+        return verdict, key
+    for what, (k, text) in sorted(notes.items(), key=lambda kv: kv[1][0]):
+        if key.startswith("tcp-unexpected-event:W"):
+            return ("%s in frame %d answered by Abort and close, and nothing behind it in the stream asks for one (%s)"
+                    % (text, k, verdict), {"empty": "tcp-empty-not-ignored", "signalling": "tcp-signalling-refused"}[what])
+        return (verdict + " [the Abort stands right behind the %s in frame %d]" % (text, k), key)
+    return verdict, key
+
+
+def _oracle_session(maxsize, stream, events, is_network_error, notes):
     """The property read over what the implementation did.  `events` as recorded by the fakes:
     the whole session is judged.  Up to and including the first close the events must be what
     the frames of the stream demand, one after the other; after the endpoint has closed (its
@@ -418,13 +444,17 @@ def oracle_session(maxsize, stream, events, is_network_error):
         code = frame[off - 1]
         token = frame[off:off + tkl]
         try:
-            opts, payload = o_parse_body(frame[off + tkl:])
+            opts, payload = o_parse_body(frame[off + tkl:], signalling=code >= 224)
         except OUnparsable as e:
             return abort_close("unparsable frame %d (%s)" % (k, e))
         if code >= 224:
             if 225 <= code <= 229:
                 if any(n % 2 == 1 for n, _ in opts):
                     return abort_close("critical option in signalling frame %d (7.%02d)" % (k, code - 224))
+                if code in (225, 227) and looks_like_abort_close():
+                    # a CSM / Pong whose options are all elective asks for no reaction: if the session
+                    # ends in an Abort here and nothing later accounts for it, it is this frame's
+                    notes.setdefault("signalling", (k, "well-formed %s without critical options" % {225: "CSM", 227: "Pong"}[code]))
                 if code == 225:
                     csm = True
                 elif code == 226:
@@ -449,14 +479,22 @@ def oracle_session(maxsize, stream, events, is_network_error):
                 if looks_like_abort_close():
                     return abort_close("unknown signalling code")
         else:
-            if not csm:
+            if code == 0:
+                # "Empty messages are ignored" -- unconditionally (RFC 8323 3.4: they "can always be
+                # sent and MUST be ignored by the recipient"), also ahead of the peer's CSM: no event
+                # at all belongs to this frame.  (The oracle used to reach this branch only once the
+                # CSM was in and accepted an Abort before: withdrawn after audit-E.)
+                if i < len(ev) and ev[i][0] in ("Q", "R") and ev[i][1] == 0:
+                    return ("empty message in frame %d handed to the token manager" % k, "tcp-empty-dispatched")
+                if not csm and looks_like_abort_close():
+                    # the session ends in an Abort at this point: fine if a later frame accounts
+                    # for it (a request without CSM, a broken frame, ...), else it is this frame's
+                    notes.setdefault("empty", (k, "empty message ahead of the peer's CSM"))
+            elif not csm:
                 if i < len(ev) and ev[i][0] in ("Q", "R"):
                     return ("message in frame %d dispatched before the peer's CSM" % k, "tcp-dispatch-before-csm")
                 if looks_like_abort_close():
                     return abort_close("no CSM")
-            elif code == 0:
-                if i < len(ev) and ev[i][0] in ("Q", "R") and ev[i][1] == 0:
-                    return ("empty message in frame %d handed to the token manager" % k, "tcp-empty-dispatched")
             else:
                 if i >= len(ev) or ev[i][0] not in ("Q", "R"):
                     return ("message in frame %d (code %d) not dispatched; saw %s"
